@@ -208,11 +208,17 @@ pub fn chain(fat: &[u32], v: &Vol, start: u32) -> (Vec<u32>, Option<ChainErr>) {
     if !v.in_range(start) {
         return (out, Some(ChainErr::StartOutOfRange(start)));
     }
-    let mut seen = BTreeSet::new();
     let mut c = start;
     loop {
-        if !seen.insert(c) {
-            return (out, Some(ChainErr::Cycle(c)));
+        // a chain longer than the number of clusters must have revisited one
+        if out.len() as u32 > v.clusters {
+            // find the first repeated cluster for the report
+            let mut seen = BTreeSet::new();
+            let rep = out.iter().find(|x| !seen.insert(**x)).cloned().unwrap_or(c);
+            let cut = out.iter().position(|x| *x == rep).unwrap_or(0);
+            let second = out.iter().skip(cut + 1).position(|x| *x == rep).map(|p| p + cut + 1).unwrap_or(out.len());
+            out.truncate(second);
+            return (out, Some(ChainErr::Cycle(rep)));
         }
         let e = low(v, fat[c as usize]);
         if e == 0 {
@@ -471,13 +477,36 @@ pub struct Problem {
 pub struct Tree {
     pub nodes: Vec<Node>,
     pub problems: Vec<Problem>,
-    /// cluster -> owner path
-    pub owner: BTreeMap<u32, String>,
+    /// cluster -> index+1 into `owner_names` (0 = referenced by nothing)
+    pub owner_idx: Vec<u32>,
+    pub owner_names: Vec<String>,
     /// directories: path -> (loc, slots)
     pub dirs: BTreeMap<String, (DirLoc, Vec<Slot>)>,
 }
 
 impl Tree {
+    pub fn owner_of(&self, c: u32) -> Option<&String> {
+        match self.owner_idx.get(c as usize) {
+            Some(&i) if i > 0 => self.owner_names.get(i as usize - 1),
+            _ => None,
+        }
+    }
+    fn own(&mut self, c: u32, who: &str) -> Option<String> {
+        let cur = self.owner_idx[c as usize];
+        if cur > 0 {
+            let o = &self.owner_names[cur as usize - 1];
+            return if o == who { None } else { Some(o.clone()) };
+        }
+        let idx = match self.owner_names.iter().rposition(|n| n == who) {
+            Some(i) => i,
+            None => {
+                self.owner_names.push(who.to_string());
+                self.owner_names.len() - 1
+            }
+        };
+        self.owner_idx[c as usize] = idx as u32 + 1;
+        None
+    }
     pub fn find(&self, path: &str) -> Option<&Node> {
         self.nodes.iter().find(|n| n.path == path)
     }
@@ -498,7 +527,8 @@ pub fn walk(img: &dyn Rd, v: &Vol, fat: &[u32]) -> Tree {
     let mut t = Tree {
         nodes: Vec::new(),
         problems: Vec::new(),
-        owner: BTreeMap::new(),
+        owner_idx: vec![0u32; v.clusters as usize + 2],
+        owner_names: Vec::new(),
         dirs: BTreeMap::new(),
     };
     let root = root_loc(v);
@@ -508,7 +538,7 @@ pub fn walk(img: &dyn Rd, v: &Vol, fat: &[u32]) -> Tree {
             prob(&mut t, &format!("chain/{}", e.kind()), format!("root directory: {:?}", e));
         }
         for cl in ch {
-            t.owner.insert(cl, "/".to_string());
+            t.own(cl, "/");
         }
     }
     let mut visited = BTreeSet::new();
@@ -637,14 +667,16 @@ fn walk_dir(
                     format!("{}: {} clusters for {} bytes", p, ch.len(), e.size),
                 );
             }
+            let mut shared: Option<(u32, String)> = None;
             for &cl in &ch {
-                if let Some(o) = t.owner.get(&cl) {
-                    if *o != p {
-                        prob(t, "chain/shared-cluster", format!("cluster {} in {} and {}", cl, o, p));
+                if let Some(o) = t.own(cl, &p) {
+                    if shared.is_none() {
+                        shared = Some((cl, o));
                     }
-                } else {
-                    t.owner.insert(cl, p.clone());
                 }
+            }
+            if let Some((cl, o)) = shared {
+                prob(t, "chain/shared-cluster", format!("cluster {} in {} and {}", cl, o, p));
             }
         }
         let idx = t.nodes.len();
